@@ -20,7 +20,7 @@ one() {
 }
 export -f one; export IDS ROOT
 {
-  for d in seeded/*/; do n=$(basename $d); echo "$ROOT/seeded/$n/patch.diff seeded:$n"; done
-  for f in selftest/reverts/*.diff; do n=$(basename $f .diff); echo "$ROOT/$f revert:$n"; done
+  for d in seeded/${PATTERN:-*}/; do n=$(basename $d); echo "$ROOT/seeded/$n/patch.diff seeded:$n"; done
+  for f in ${REVERTS:-selftest/reverts/*.diff}; do n=$(basename $f .diff); echo "$ROOT/$f revert:$n"; done
 } | xargs -P "$JOBS" -L 1 bash -c 'one "$0" "$1"' | sort > "$OUTFILE"
 cat "$OUTFILE"
